@@ -341,7 +341,7 @@ def tok_cases(prop, tier):
     cl, kl, nr = (3, 2, 1500) if tier == 'quick' else (4, 3, 40000)
     cases = list(gen.strings_upto(gen.CHAR_ALPHABET, cl))
     cases += list(gen.strings_upto(gen.KIND_ALPHABET, kl))
-    cases += gen.odd_char_cases()
+    cases += gen.odd_char_cases() + gen.ascii_boundary_cases()
     nex = len(cases)
     cases += list(gen.random_strings(rng, gen.CHAR_ALPHABET + list('leftbigr'), nr, cl + 1, 20))
     docs = [s for s, _ in inputs.grammar_docs(prop, 60 if tier == 'quick' else 600, 3, salt='ktok')]
@@ -378,7 +378,7 @@ def parse_cases(prop, tier, skip_opts=True):
         cl, kl, nd, per, nr = 4, 3, 1200, 80, 40000
     strs = list(gen.strings_upto(gen.CHAR_ALPHABET, cl))
     strs += list(gen.strings_upto(gen.KIND_ALPHABET, kl))
-    strs += gen.env_edge_cases() + gen.odd_char_cases()
+    strs += gen.env_edge_cases() + gen.odd_char_cases() + gen.ascii_boundary_cases()
     nex = len(strs)
     docs = [s for s, _ in inputs.grammar_docs(prop, nd, 3 if tier == 'quick' else 5, salt='kparse',
                                              maxchars=600)]
